@@ -8,7 +8,7 @@ V="$(cd "$(dirname "$0")/.." && pwd)"
 D=$(mktemp -d /dev/shm/seed_XXXXXX)
 rsync -a --exclude .git --exclude __pycache__ --exclude _seed /repo/ "$D/"
 OUT="$V/seeded/$NAME"; mkdir -p "$OUT"
-cp "$S/patch.diff" "$OUT/patch.diff"; cp "$S/demo.py" "$OUT/demo.py" 2>/dev/null; cp "$S/notes.md" "$OUT/notes.md" 2>/dev/null
+if [ "$S" != "$(realpath "$OUT")" ]; then cp "$S/patch.diff" "$OUT/patch.diff"; cp "$S/demo.py" "$OUT/demo.py" 2>/dev/null; cp "$S/notes.md" "$OUT/notes.md" 2>/dev/null; fi
 ( cd "$D" && PYTHONPATH="$D" PYTHONDONTWRITEBYTECODE=1 timeout 600 /venv/bin/python "$OUT/demo.py" >"$OUT/demo_clean.log" 2>&1 ); RC_CLEAN=$?
 ( cd "$D" && patch -p1 -s < "$OUT/patch.diff" ) || { echo "PATCH DOES NOT APPLY"; rm -rf "$D"; exit 3; }
 ( cd "$D" && PYTHONPATH="$D" PYTHONDONTWRITEBYTECODE=1 timeout 600 /venv/bin/python "$OUT/demo.py" >"$OUT/demo_patched.log" 2>&1 ); RC_PATCHED=$?
@@ -25,14 +25,14 @@ echo "demo clean rc=$RC_CLEAN patched rc=$RC_PATCHED suite: $SUITE"
 RESULTS=""
 cd "$V"
 for c in "$@"; do
-  s=$(date +%s); out=$(VERIF_REPO="$D" ./check "$c" "$TIER" 2>&1); rc=$?; e=$(date +%s)
+  s=$(date +%s); out=$(VERIF_REPO="$D" VERIF_OUT="$D/_out" ./check "$c" "$TIER" 2>&1); rc=$?; e=$(date +%s)
   echo "== $c $TIER rc=$rc $((e-s))s: $(echo "$out" | grep -v '^KNOWN-FINDING' | tail -2 | tr '\n' ' ' | cut -c1-300)"
   RESULTS="$RESULTS $c:$TIER:rc=$rc:$((e-s))s"
   if [ $rc -eq 1 ]; then
-    f=$(echo "$out" | grep '^VIOLATION' | head -1 | sed 's/.*replay=//'); [ -n "$f" ] && cp "$V/$f" "$OUT/replay_$c.json" 2>/dev/null
+    f=$(echo "$out" | grep '^VIOLATION' | head -1 | sed 's/.*replay=//'); [ -n "$f" ] && cp "$D/_out/$f" "$OUT/replay_$c.json" 2>/dev/null
   fi
 done
 cat > "$OUT/meta.json" <<EOF
 {"name": "$NAME", "demo_rc_clean": $RC_CLEAN, "demo_rc_patched": $RC_PATCHED, "suite_on_patched": "$SUITE", "checks_run": "$RESULTS", "base_commit": "$(git -C /repo rev-parse --short HEAD)"}
 EOF
-rm -rf "$D" "$V/replays"
+rm -rf "$D"
